@@ -1029,7 +1029,16 @@ class _Tree(_ArithmeticMixin, _Base):
             min = self._to_key(min)
             bucket = self._findbucket(min)
         if bucket is not None:
-            return bucket.minKey(min)
+            try:
+                return bucket.minKey(min)
+            except ValueError:
+                # Every key of the bucket the search led to is smaller
+                # than ``min`` (deletions leave stale separators behind):
+                # the answer is the first key of the following bucket.
+                bucket = bucket._next
+                if bucket is None:
+                    raise
+                return bucket.minKey()
         raise ValueError('empty tree')
 
     def maxKey(self, max=_marker):
